@@ -95,6 +95,23 @@ def convo : Handler
 
 end Convo
 
-def convoHandlers : List (String × Handler) := [("convo", Convo.convo)]
+/-- `findlist <hex>`: `FindPDUSessionResourceSetupListSUReq` on the decoded PDU (harness/cmd/corr/findlist.go) -/
+def findList : Handler
+  | [hex] =>
+    match hexArg hex with
+    | none => badOp
+    | some b =>
+      match ngapDecode b with
+      | .error e => (e.tag, "n/a")
+      | .ok v =>
+        match findSetupList v with
+        | none => ("nil", "n/a")
+        | some l =>
+          match field 0 l with
+          | some (.slice items) => (s!"ok {items.length}", "n/a")
+          | _ => ("bad-op", "n/a")
+  | _ => badOp
+
+def convoHandlers : List (String × Handler) := [("convo", Convo.convo), ("findlist", findList)]
 
 end Driver
